@@ -5,8 +5,13 @@ set -e
 cd "$(dirname "$0")"
 export GOFLAGS=-mod=mod GOPROXY=off GOSUMDB=off GOTOOLCHAIN=local
 mkdir -p .work/bin evidence
-cp /repo/go.sum harness/go.sum
-(cd harness && go build -tags verif -o ../.work/bin/drive ./cmd/drive && go build -tags verif -o ../.work/bin/extract ./cmd/extract)
-.work/bin/extract -repo /repo -out lean/LA/Gen
+REPO=${VERIF_REPO:-/repo}
+cp $REPO/go.sum harness/go.sum
+MODFLAG=""
+if [ "$REPO" != "/repo" ]; then
+  sed "s#=> /repo#=> $REPO#" harness/go.mod > .work/alt.mod; cp harness/go.sum .work/alt.sum; MODFLAG="-modfile=$PWD/.work/alt.mod"
+fi
+(cd harness && go build $MODFLAG -tags verif -o ../.work/bin/drive ./cmd/drive && go build $MODFLAG -tags verif -o ../.work/bin/extract ./cmd/extract)
+.work/bin/extract -repo $REPO -out lean/LA/Gen
 (cd lean && lake build)
 echo "setup ok"
